@@ -117,6 +117,10 @@ def const_eval(mod, expr, depth=0):
         f = dotted(expr.func)
         if f == "sys.intern" and len(expr.args) == 1:
             return const_eval(mod, expr.args[0], depth + 1)
+        if f == "chr" and len(expr.args) == 1 and not expr.keywords:
+            v = const_eval(mod, expr.args[0], depth + 1)
+            if isinstance(v, int) and not isinstance(v, bool) and 0 <= v <= 0x10FFFF:
+                return chr(v)
         if f in ("frozenset", "set", "tuple", "list") and len(expr.args) <= 1:
             inner = const_eval(mod, expr.args[0], depth + 1) if expr.args else ()
             return {"frozenset": frozenset, "set": set, "tuple": tuple, "list": list}[f](inner)
